@@ -33,8 +33,8 @@ func (h *NFSProcedureHandler) handleRead(body io.Reader, reply *RPCReply, authCt
 	}
 
 	// Rate limiting for large reads
-	if count > 65536 && h.server.handler.rateLimiter != nil && h.server.handler.policy.Load().EnableRateLimiting {
-		if !h.server.handler.rateLimiter.AllowOperation(authCtx.ClientIP, OpTypeReadLarge) {
+	if rl := h.server.handler.rateLimiter.Load(); count > 65536 && rl != nil && h.server.handler.policy.Load().EnableRateLimiting {
+		if !rl.AllowOperation(authCtx.ClientIP, OpTypeReadLarge) {
 			if h.server.handler.metrics != nil {
 				h.server.handler.metrics.RecordRateLimitExceeded()
 			}
@@ -111,8 +111,8 @@ func (h *NFSProcedureHandler) handleWrite(body io.Reader, reply *RPCReply, authC
 	}
 
 	// Rate limiting for large writes
-	if count > 65536 && h.server.handler.rateLimiter != nil && h.server.handler.policy.Load().EnableRateLimiting {
-		if !h.server.handler.rateLimiter.AllowOperation(authCtx.ClientIP, OpTypeWriteLarge) {
+	if rl := h.server.handler.rateLimiter.Load(); count > 65536 && rl != nil && h.server.handler.policy.Load().EnableRateLimiting {
+		if !rl.AllowOperation(authCtx.ClientIP, OpTypeWriteLarge) {
 			if h.server.handler.metrics != nil {
 				h.server.handler.metrics.RecordRateLimitExceeded()
 			}
